@@ -45,6 +45,9 @@ Inits012 == InitsOver({0, 1, 2})
 OldV == {0, 1, 2}
 NewV == {0, 1, 3, 4}
 CapsFew == {{"report-status"}, {"report-status", "atomic"}, AllCaps}
+\* capability sets without report-status (the pusher is told nothing) and the same with it
+CapsQuiet == {{}, {"atomic", "delete-refs"}, {"side-band-64k"}}
+CapsQuietTwin == {c \cup {"report-status"} : c \in CapsQuiet}
 CapsMC == {{}, {"report-status"}, {"report-status", "atomic"}}
 CapsRS == {{"report-status"}, {"report-status", "atomic"}}
 
@@ -59,8 +62,10 @@ WSome(x, cs, cps) == \E c \in cs, caps \in cps : \E v \in VarSome(c) : x = One(W
 WireQuick(x) == \/ WAll(x, Cmd1(OldV, NewV), CapsFew)
                 \/ \E c \in Cmd1(OldV, NewV), caps \in SUBSET AllCaps : x = One(Wire(c, caps, Plain))
                 \/ WSome(x, Cmd2(OldV, {0, 3, 4}), CapsFew)
+                \/ \E c \in Cmd2(OldV, {0, 3, 4}), caps \in CapsQuiet \cup CapsQuietTwin : x = One(Wire(c, caps, Plain))
 \* negative controls: small, contains a stale command, a missing object and an atomic pair
 WireNeg(x) == WAll(x, Cmd1(OldV, NewV) \cup Cmd2({1, 2}, {3}), CapsRS)
+WireNegQuiet(x) == WAll(x, Cmd1(OldV, NewV), {{}, {"atomic"}})
 \* thorough: everything x everything
 WireFull(x) == WAll(x, Cmd1(OldV, NewV) \cup Cmd2(OldV, NewV), SUBSET AllCaps)
 \* model checking only: one capability set per behaviourally distinct class
